@@ -104,6 +104,109 @@ theorem C04_history_counter (c : Cfg) (nodes0 : List NodeSt) (its : List Iter) (
   exact (runLoop_inv c nodes0 its _ true [] hinit hok).2
 
 
+/-! ## fairness: what a pass over the wait pool does with the tasks that wait -/
+
+theorem prios_single (p : Int) (l : List Req) : prios [(p, l)] = [p] := by
+  simp [prios]
+
+theorem sortDesc_single (key : Req → Int) (r : Req) : sortDesc key [r] = [r] := by
+  simp [sortDesc, insertDesc]
+
+theorem envWait_of_ok (envs : List Nat) (r : Req) (h : envOk envs r = true) : envWait envs r = false := by
+  unfold envOk at h; unfold envWait
+  cases he : r.env with
+  | none => rfl
+  | some e => rw [he] at h; simp only [decide_eq_true_eq] at h; simp [h]
+
+/-- **a task waiting alone**: a pass over the wait pool (it runs whenever resources may have been
+    released) tries the task once; it is started if it can be placed now, failed if it cannot be placed
+    although nothing holds resources (it does not fit even the idle pilot), and keeps waiting otherwise -/
+theorem C04_alone (c : Cfg) (s : SchedSt) (p : Int) (r : Req) (hw : s.waitpool = [(p, [r])]) (henv : envOk s.envs r = true) :
+    (scheduleWaitpool c s).2.1
+      = (match (tryAllocation c s r).1 with
+         | .ok true  => [Ev.adv r.uid "AGENT_EXECUTING_PENDING"]
+         | .ok false => []
+         | .error _  => [Ev.adv r.uid "FAILED"])
+    ∧ (scheduleWaitpool c s).1.waitpool
+      = (match (tryAllocation c s r).1 with
+         | .ok false => [(p, [r])]
+         | _         => [(p, [])]) := by
+  have hwp := tryAllocation_wp c s r
+  rw [scheduleWaitpool_eq, hw, prios_single]
+  simp only [List.foldl_cons, List.foldl_nil, wpStep, waitpoolOne, hw, poolOf, List.find?_cons, decide_true,
+             List.filter_cons, henv, envWait_of_ok _ _ henv, List.filter_nil, if_true, sortDesc_single,
+             List.cons_ne_nil, if_false, lazyBisect_single]
+  rcases hta : tryAllocation c s r with ⟨res, s'⟩
+  rw [hta] at hwp
+  simp only at hwp
+  cases res with
+  | error e => simp [pickIdx, hwp, hw, setPool]
+  | ok b => cases b <;> simp [pickIdx, hwp, hw, setPool]
+
+/-- **priorities**: two tasks wait in pools of different priority and a release lets only the first one
+    tried run - the one that is tried first is the one of the higher priority, whatever the order in which
+    the pools were created; the other one keeps waiting -/
+theorem C04_priority (c : Cfg) (s : SchedSt) (p1 p2 : Int) (r1 r2 : Req) (hp : p2 < p1)
+    (hw : s.waitpool = [(p1, [r1]), (p2, [r2])] ∨ s.waitpool = [(p2, [r2]), (p1, [r1])])
+    (h1 : envOk s.envs r1 = true) (h2 : envOk s.envs r2 = true)
+    (s1 s2 : SchedSt) (hfit : tryAllocation c s r1 = (.ok true, s1)) (hno : tryAllocation c s1 r2 = (.ok false, s2))
+    (henvs : s1.envs = s.envs) :
+    (scheduleWaitpool c s).2.1 = [Ev.adv r1.uid "AGENT_EXECUTING_PENDING"]
+    ∧ poolOf (scheduleWaitpool c s).1.waitpool p2 = [r2] ∧ poolOf (scheduleWaitpool c s).1.waitpool p1 = [] := by
+  have hwp1 : s1.waitpool = s.waitpool := by have := tryAllocation_wp c s r1; rw [hfit] at this; exact this
+  have hwp2 : s2.waitpool = s1.waitpool := by have := tryAllocation_wp c s1 r2; rw [hno] at this; exact this
+  have hne : p1 ≠ p2 := by omega
+  have hne' : p2 ≠ p1 := by omega
+  have hpr : prios s.waitpool = [p1, p2] := by
+    rcases hw with hw | hw <;> rw [hw] <;> simp [prios, hne, hne', hp] <;> omega
+  have hpool1 : poolOf s.waitpool p1 = [r1] := by
+    rcases hw with hw | hw <;> rw [hw] <;> simp [poolOf, hne, hne']
+  have hpool2 : poolOf s.waitpool p2 = [r2] := by
+    rcases hw with hw | hw <;> rw [hw] <;> simp [poolOf, hne, hne']
+  rw [scheduleWaitpool_eq, hpr]
+  simp only [List.foldl_cons, List.foldl_nil, wpStep]
+  -- the pool of the higher priority first
+  rw [waitpoolOne_single c s p1 r1 hpool1 h1, hfit]
+  simp only
+  -- then the other one, on what the first left
+  have hp2' : poolOf ({ s1 with waitpool := setPool s1.waitpool p1 [] } : SchedSt).waitpool p2 = [r2] := by
+    show poolOf (setPool s1.waitpool p1 []) p2 = [r2]
+    rw [poolOf_setPool_other _ _ _ _ hne', hwp1]; exact hpool2
+  have he2' : envOk ({ s1 with waitpool := setPool s1.waitpool p1 [] } : SchedSt).envs r2 = true := by
+    show envOk s1.envs r2 = true
+    rw [henvs]; exact h2
+  rw [waitpoolOne_single c _ p2 r2 hp2' he2', tryAllocation_frame, hno]
+  simp only [List.nil_append, List.append_nil]
+  refine ⟨trivial, ?_, ?_⟩
+  · rw [poolOf_setPool_same]
+  · rw [poolOf_setPool_other _ _ _ _ hne, poolOf_setPool_same]
+
+/-- **as soon as resources are released**: an iteration in which `_unschedule_completed` takes anything off
+    its queue leaves the `resources` flag set ... -/
+theorem C04_flag_after_release (c : Cfg) (s : SchedSt) (res : Bool) (it : Iter)
+    (h : drained (loopIterA c s res it).1 it.unsched ≠ []) : (loopIter c s res it).2.1 = true := by
+  unfold loopIter
+  rcases hA : loopIterA c s res it with ⟨s2, res1, evs⟩
+  rw [hA] at h
+  simp only at h ⊢
+  unfold unscheduleCompleted
+  unfold drained at h
+  rcases hd : drainUnsched (s2.unschedQ ++ it.unsched) [] with ⟨uids', rest⟩
+  rw [hd] at h
+  simp only at h ⊢
+  simp only [h, if_false]
+  cases res1 <;> simp
+
+/-- ... and with the flag set the next iteration starts with a pass over the wait pool (`C04_alone`,
+    `C04_priority` say what that pass does), before anything that arrives in that iteration is placed -/
+theorem C04_pass_runs (c : Cfg) (s : SchedSt) (it : Iter) :
+    (loopIterA c s true it).2.2
+      = (scheduleWaitpool c { s with cancel := s.cancel ++ it.marks, envs := s.envs ++ it.envs }).2.1
+        ++ (scheduleIncoming c (scheduleWaitpool c { s with cancel := s.cancel ++ it.marks, envs := s.envs ++ it.envs }).1
+              it.incoming).2.1 := by
+  unfold loopIterA
+  simp only [if_true]
+
 /-! ## conservation over whole histories -/
 
 /-- **every task is accounted for, exactly once, at every moment**: for every configuration, every
